@@ -4,7 +4,7 @@
    record, upper = derivable by finitely many substitutions, binding by Python's rules).  ./check C03 judges
    rattr's own results with the Coq checkers lower_ok / upper_ok / calls_ok and compares model and rattr
    exactly (results and mutated IR). *)
-From RattrV Require Import Base Str Context CallSwaps PyBind FuncAn Results ResCheck Closure ResSpecCheck ResProofs ResFuel.
+From RattrV Require Import Base Str Context CallSwaps PyBind FuncAn Results ResCheck Closure ResSpecCheck ResProofs ResFuel ResOneLevel.
 Open Scope string_scope.
 Open Scope list_scope.
 
@@ -61,3 +61,25 @@ Theorem C03_call_tree_always_built :
   forall excluded (E : env) root, In root E -> build_tree excluded E root <> None.
 Proof. exact build_tree_total. Qed.
 Print Assumptions C03_call_tree_always_built.
+
+(* depth one, for EVERY caller, callee, call and store: a function whose only call resolves to a function without
+   resolvable calls gets exactly its own accesses plus the callee's accesses rewritten by the call's substitution
+   (the substitution itself is C04's) - and no other entry of the store changes *)
+Theorem C03_one_level_tree :
+  forall excluded (E : env) f g c,
+    fe_calls f = [c] -> resolve excluded E c = Some g -> (forall c', In c' (fe_calls g) -> resolve excluded E c' = None) ->
+    build_tree excluded E f = Some [mkT f None [1]; mkT g (Some c) []].
+Proof. exact one_level_tree. Qed.
+Theorem C03_one_level_closure :
+  forall (f g : fentry) (c : callrec) s,
+    let swaps := fst (construct_call_swaps (fe_iface g) (mkCall (c_args c) (c_kw c))) in
+    let '(gg, gs, gd) := get_ir s (fe_id g) in
+    fold_tree [mkT f None [1]; mkT g (Some c) []] s =
+    match unbind_all swaps gg, unbind_all swaps gs, unbind_all swaps gd with
+    | Some ug, Some us, Some ud =>
+      let '(pg, ps, pd) := get_ir s (fe_id f) in
+      Some (set_ir s (fe_id f) (union pg ug, union ps us, union pd ud))
+    | _, _, _ => None
+    end.
+Proof. exact one_level_fold. Qed.
+Print Assumptions C03_one_level_closure.
